@@ -60,7 +60,8 @@ Fixpoint py_eval (e : expr) : res Z :=
       rbind (py_eval x) (fun a => if String.eqb op "Not" then Ok (o_not O a) else ropt (o_un O op a))
   | ECall (EName f) args kws =>
       rbind (py_list py_eval args) (fun avs => rbind (py_kws py_eval kws) (fun kvs =>
-      ropt (o_call O f avs kvs)))
+      if o_callable O f then ropt (o_call O f avs kvs)
+      else Err BadCall))                (* TypeError: object is not callable *)
   | ECall _ _ _ => Err BadCall
   | EName id => Ok (o_name O id)
   | EList es => rbind (py_list py_eval es) (fun vs => Ok (o_list O vs))
@@ -85,7 +86,7 @@ Fixpoint in_subset (e : expr) : bool :=
   | EBinOp op l r => mem op (keys (t_operators T)) && in_subset l && in_subset r
   | EUnaryOp op x => (String.eqb op "Not" || mem op (keys (t_operators T))) && in_subset x
   | ECall (EName f) args kws =>
-      mem f (keys (t_functions T)) && o_callable O f &&
+      mem f (keys (t_functions T)) &&
       forallb in_subset args &&
       forallb (fun kw => match fst kw with Some _ => in_subset (snd kw) | None => false end) kws
   | ECall _ _ _ => false
